@@ -54,6 +54,7 @@ type Engine struct {
 	usedContracts map[string]bool
 	langUsed      map[string]bool
 	globalInit    map[types.Object]ast.Expr
+	cvObj         int
 }
 
 func NewEngine(repo string) *Engine {
